@@ -9,6 +9,13 @@ REPO = os.environ.get("VERIF_REPO", "/repo")
 WORK = os.path.join(VERIF, "work")
 DRIVER = os.path.join(VERIF, "driver", "target", "release", "mirfacts")
 EXPECTED_CRATES = ["biscuit_auth", "biscuit_capi", "biscuit_parser", "biscuit_quote"]
+# configurations: "default" is what `cargo check --workspace` builds (workspace default features); "extra" adds the optional
+# features of biscuit-auth whose dependencies are available offline (bwk: BiscuitWebKey; uuid: ToAnyParam for Uuid; serde-error:
+# Serialize/Deserialize on the error types) - analysed by the thorough tier of C09 and C17
+CONFIGS = {
+    "default": {"args": ["--workspace"], "crates": EXPECTED_CRATES},
+    "extra": {"args": ["-p", "biscuit-auth", "--features", "bwk,uuid,serde-error"], "crates": ["biscuit_auth", "biscuit_parser", "biscuit_quote"]},
+}
 
 
 def repo_hash(repo=REPO):
@@ -78,7 +85,8 @@ def extract(config="default", repo=REPO, extra_cargo_args=(), extra_rustflags=""
         })
         env.pop("RUSTC_WRAPPER", None)
         t0 = time.time()
-        cmd = ["cargo", "+nightly", "check", "--offline", "--workspace", *extra_cargo_args]
+        cfg = CONFIGS.get(config, CONFIGS["default"])
+        cmd = ["cargo", "+nightly", "check", "--offline", *cfg["args"], *extra_cargo_args]
         p = subprocess.run(cmd, cwd=repo, env=env, stdout=subprocess.PIPE, stderr=subprocess.STDOUT, text=True)
         if p.returncode != 0:
             sys.stderr.write(p.stdout[-6000:])
@@ -94,7 +102,7 @@ def extract(config="default", repo=REPO, extra_cargo_args=(), extra_rustflags=""
                     print(f"extract: stale fact file {f}", file=sys.stderr)
                     sys.exit(2)
                 seen.add(f.split("-")[0])
-        missing = [c for c in EXPECTED_CRATES if c not in seen]
+        missing = [c for c in cfg["crates"] if c not in seen]
         if missing:
             print(f"extract: no facts for crates {missing} (driver skipped?)", file=sys.stderr)
             shutil.rmtree(out, ignore_errors=True)
